@@ -34,7 +34,7 @@ MANIFEST = dict(
          "The process must survive, the callback must fire exactly once (never after a cancel), a delivered response must have 100 <= status <= 599 and "
          "bodylen <= limit (or (size_t)-1 with a NULL body), no library allocation may remain after teardown and the descriptor must be closed exactly "
          "once. Bodies exactly at / just below / just above the limit and white-space chunk sizes are generated deliberately; the malloc fill byte is a "
-         "generated dimension so that reads of unreceived buffer space become deterministic reports.",
+         "generated dimension so that reads of unreceived buffer space become deterministic reports. One hostile-peer request in 25 is made through https_request (TLS sources linked): the peer cannot complete a handshake, and the request must still end with one callback, nothing leaked and nothing touched after release.",
     note="Trusted: the kernel model, the tracking allocator, clang 14 sanitizers, rapidcheck/libFuzzer. Memory safety is judged by the sanitizers: what "
          "they do not instrument (libc internals) is checked at the interceptors only.",
 )
